@@ -62,7 +62,10 @@ class G:
         if k < 0.25:
             return "N"
         if k < 0.40 and d < self.maxdepth:
-            return ["J"] + self.kids(d + 1)
+            ks = self.kids(d + 1)
+            if r.random() < 0.15:
+                ks.insert(r.randrange(len(ks) + 1), "NS")     # a nil *ers.Stack operand (ignored like nil)
+            return ["J"] + ks
         if k < 0.46 and d < self.maxdepth:
             return ["X", self.annot(), self.term(d + 1)]
         if k < 0.50 and d < self.maxdepth:
@@ -82,8 +85,16 @@ def gen(rng, tier, open_keys):
         if i % 8 == 7:
             terms = [g.term(1) for _ in range(rng.randrange(0, 9))]
             out.append(C.sx(["collector", g.ids + [999, 1000]] + terms))
+        elif i % 8 == 3:
+            steps = []
+            for _ in range(rng.randrange(2, 10)):
+                steps.append(["add", ("NS" if rng.random() < 0.08 else g.term(1))] if rng.random() < 0.55 else [rng.choice(["resolve", "iter", "iter", "len"])])
+            steps.append([rng.choice(["resolve", "iter"])])
+            out.append(C.sx(["colseq", g.ids] + steps))
         else:
             top = ["J"] + g.kids(0) if rng.random() < 0.8 else g.term(0)
+            if top[0] == "J" and rng.random() < 0.1:
+                top.insert(rng.randrange(1, len(top) + 1), "NS")
             out.append(C.sx(["case", g.ids + [999, 1000, 1001], top]))
     return out
 
@@ -96,7 +107,7 @@ def corpus():
 # ---------------- independent oracle (the property statement, in Python) ----------------------
 def ev(t):
     """term -> value or None; values: (kind, id, payload)"""
-    if t == "N":
+    if t == "N" or t == "NS":
         return None
     h = t[0]
     if h == "L":
@@ -221,6 +232,26 @@ def predicate(line, obs, allow_known=False):
                 if (a != "-") != want:
                     return f"errors.As(type {ty}) = {a} but constituents say {want}"
         return None
+    if t[0] == "colseq":
+        outs = obs.split(";")
+        added = []
+        for i, st in enumerate(t[2:]):
+            if i >= len(outs):
+                return f"no observation for step {i}"
+            if st[0] == "add":
+                added.append(ev(st[1]))
+                continue
+            ps = parts_all(added)
+            want = ",".join(sorted(label(p) for p in ps))
+            if st[0] == "len":
+                if outs[i] != str(len(ps)):
+                    return f"step {i}: Collector.Len={outs[i]} but {len(ps)} constituents were added so far"
+            elif st[0] in ("resolve", "iter"):
+                got = outs[i][2:-1]
+                if got != want:
+                    return (f"step {i} ({st[0]}): the collector shows [{got}] but the errors added so far are [{want}] "
+                            "(a Collector holds exactly the non-nil errors added, however it was observed before)")
+        return None
     if t[0] == "collector":
         if obs.startswith("UNSTABLE "):
             return ("the outcome of concurrent Collector.Add calls depends on the interleaving (an Add was lost or duplicated): "
@@ -285,6 +316,9 @@ def features(line, obs):
 def shrink(line, fails):
     """prune subtrees: replace any sub-term by N or by one of its children while the failure persists"""
     t = C.parse_sx(line)
+    if t[0] == "colseq":
+        steps = C.ddmin(t[2:], lambda sub: fails(C.sx(["colseq", t[1]] + sub)), max_tests=120)
+        return C.sx(["colseq", t[1]] + steps)
     changed = True
     budget = 300
     while changed and budget > 0:
